@@ -222,6 +222,17 @@ def apply_variant(v: dict) -> Optional[Dict[str, str]]:
     if "patch" in v:
         with open(os.path.join(os.path.dirname(HERE), v["patch"]), encoding="utf-8") as fh:
             return apply_unified_diff(fh.read())
+    if "mutant" in v:
+        # a recorded mechanical mutant, re-applied to the current source; stale when the site has moved
+        from .mutation import mutate_source
+
+        m = v["mutant"]
+        with open(os.path.join(REPO, m["file"]), encoding="utf-8") as fh:
+            src = fh.read()
+        r = mutate_source(src, m["function"], m["op"], m["idx"], m.get("line"))
+        if r is None or r[1] != m["minus"] or r[2] != m["plus"]:
+            return None
+        return {m["file"]: r[0]}
     path = os.path.join(REPO, v["file"])
     with open(path, encoding="utf-8") as fh:
         text = fh.read()
